@@ -372,7 +372,7 @@ class Machine:
         if k == 'move': return self.load(self.place(fr, op[1]))
         if k == 'copy': return clone_val(self.load(self.place(fr, op[1])))
         if k == 'const': return self.const(fr, op[1])
-        if k == 'fnitem': return FnItem(op[1])
+        if k == 'fnitem': return FnItem(self.subst_tenv(op[1], fr.tenv) if fr.tenv else op[1])
         raise Inconclusive('operand kind ' + k)
 
     def const(self, fr, s):
@@ -406,6 +406,7 @@ class Machine:
                 if mm: return FnItem(mm.group(1))
             if re.match(r'^(std::marker::)?PhantomData', t): return None
             return Tok('ZST:' + t)
+        if re.match(r'^(std::marker::|core::marker::)?PhantomData(::<.*>)?$', s): return None
         pm = re.search(r'promoted\[(\d+)\]$', s)
         if pm:
             body = fr.fn.promoted.get(int(pm.group(1)))
@@ -655,9 +656,17 @@ class Machine:
         if fn.impl is None and '::<' not in norm: return None
         names = self.decls.fn_generics(fn) if hasattr(self.decls, 'fn_generics') else []
         if not names: return None
-        m = re.search(r'::<(.*)>$', norm)
-        if not m: return None
-        args = MIR.split_top(m.group(1))
+        if not norm.endswith('>'): return None
+        d, k = 0, len(norm) - 1
+        while k >= 0:
+            ch = norm[k]
+            if ch == '>' and norm[k - 1] not in '-=': d += 1
+            elif ch == '<':
+                d -= 1
+                if d == 0: break
+            k -= 1
+        if k < 2 or norm[k - 2:k] != '::': return None
+        args = MIR.split_top(norm[k + 1:-1])
         args = [a for a in args if not a.startswith("'")]
         if len(args) != len(names): return None
         return dict(zip(names, args))
@@ -733,8 +742,12 @@ class Machine:
             parts = _split_as(callee)
             if parts: self_ty, trait, meth = parts
         if meth is None:
-            segs = [s for s in MIR.split_top(callee.replace('::', '\x00'), '\x00')]
-            segs = [s for s in segs if not s.startswith('<') or s.startswith('<impl')]
+            raw = [s for s in MIR.split_top(callee.replace('::', '\x00'), '\x00')]
+            segs = []
+            for sgm in raw:
+                if sgm.startswith('<') and not sgm.startswith('<impl'):
+                    if segs: segs[-1] = segs[-1] + sgm          # Foo::<A, B> -> 'Foo<A, B>'
+                else: segs.append(sgm)
             meth = re.sub(r'<.*', '', segs[-1])
             self_ty = segs[-2] if len(segs) >= 2 else None
         cands = self.method_index().get(meth, [])
@@ -769,6 +782,17 @@ class Machine:
             if gen:
                 o2 = [f for f in out if gen.group(1).replace(' ', '') in self.decls.impl_info(f.impl)['self_full'].replace(' ', '')]
                 if len(o2) == 1: out = o2
+                else:
+                    # positional unification of the generic arguments; the impl's own type parameters are wildcards
+                    cargs = [a.split('::')[-1].strip() for a in MIR.split_top(gen.group(1))]
+                    o3 = []
+                    for f in out:
+                        info = self.decls.impl_info(f.impl)
+                        ig = re.search(r'<(.*)>', info['self_full'])
+                        iargs = [a.split('::')[-1].strip() for a in MIR.split_top(ig.group(1))] if ig else []
+                        if len(iargs) != len(cargs): continue
+                        if all(ia in info['generics'] or ia == ca or ca in info['generics'] or re.fullmatch(r'[A-Z]\w?', ca) for ia, ca in zip(iargs, cargs)): o3.append(f)
+                    if len(o3) == 1: out = o3
             if len(out) > 1:
                 o2 = [f for f in out if f.kind == 'fn' and len(f.args) == self.aux.get('_nargs_hint', len(f.args))]
                 if len(o2) == 1: out = o2
